@@ -539,10 +539,17 @@ func checkCli(c CliCase) error {
 		boots.WriteString(ref.Write(m) + "\n")
 	}
 	args := []string{"compute", "support", c.Method, "-i", cli.Write(dir, "ref.nw", ref.Write(c.Ref)+"\n"), "-b", cli.Write(dir, "boot.nw", boots.String()), "-t", strconv.Itoa(c.Threads), "--silent"}
+	toFile := len(c.Boots)%3 == 0
+	if toFile {
+		args = append(args, "-o", "sup.nw")
+	}
 	r := cli.Run(dir, "", args...)
 	ctx := fmt.Sprintf(" (gotree %v)\n ref %s\n%s", args, ref.Write(c.Ref), boots.String())
 	if r.Code != 0 || r.TimedOut {
 		return fmt.Errorf("command failed with status %d: %s%s", r.Code, r.Stderr, ctx)
+	}
+	if toFile {
+		r.Stdout = cli.Read(dir, "sup.nw")
 	}
 	m, err := ref.Parse(strings.TrimRight(r.Stdout, "\r\n"))
 	if err != nil {
